@@ -397,7 +397,10 @@ class Check(common.Check):
             a = p if rng.random() < 0.5 else self.g_pattern_for(rng, p)
             ops.insert(rng.randrange(len(ops) // 2, len(ops) + 1),
                        ['recv', float(100.75).hex(), 0, 57120, enc_msg(a, self.g_args(rng)).hex(), [IP, 5000], 'strict'])
-        return {'k': 'hist', 'ops': ops}
+        case = {'k': 'hist', 'ops': ops}
+        if rng.random() < 0.3 and nfid:                   # some user functions raise while handling a message
+            case['raise'] = sorted(set(rng.randrange(nfid) for _ in range(rng.randrange(1, 3))))
+        return case
 
     def g_sysact(self, rng):
         ops, scripts = [], {}
